@@ -342,6 +342,11 @@ def c10_programs(seed, tier):
         one(f"ext_badstart_name_{len(out)}", [X, Y, Z, rec(bad, "int", 0, 9, ns="ext")], exts=("ext",), namesok=False)
         out.append(prog(f"ext_badstart_ns_{len(out)}", [new(), {"op": "ext", "ns": bad, "url": "http://x", "nameok": False},
                                                         pc([X, Y, Z, rec("foo", "int", 0, 9, ns=bad)], pts=[], namesok=False), FIN]))
+    # namespace URLs that cannot be bound to a prefix (XML's own two, the empty string) or that would make extension records
+    # indistinguishable from standard ones (the E57 namespace itself)
+    for bad_url in ("http://www.w3.org/XML/1998/namespace", "http://www.w3.org/2000/xmlns/", "", "http://www.astm.org/COMMIT/E57/2010-e57-v1.0"):
+        out.append(prog(f"regext_badurl_{len(out)}", [new(), {"op": "ext", "ns": "ext", "url": bad_url, "nameok": False},
+                                                       pc([X, Y, Z, rec("intensity", "int", 0, 9, ns="ext")], pts=[], namesok=False), FIN]))
     for fine in ("a-", "_a", "a0", "_"):
         one(f"ext_finestart_{len(out)}", [X, Y, Z, rec(fine, "int", 0, 9, ns="ext")], exts=("ext",))
     # integer ranges whose maximum lies below the minimum: no value fits; accepted or not, a finalized file must open
@@ -987,6 +992,11 @@ def c13_programs(seed, tier):
     sweep("sint_default", sint, [v_sint(i) for i in range(-8, 25)])
     sweep("sint_neg_offset", rec("intensity", "sint", 0, 40, 0.5, -5.0), [v_sint(i) for i in range(0, 41, 3)])
     sweep("sint_color", sint, [v_sint(i) for i in range(-8, 25, 2)], color=True)
+    # a negative scale (legal) maps the declared minimum onto the upper end of the real range
+    sint_neg = rec("intensity", "sint", -8, 24, -0.25, 1.5)
+    sweep("sint_neg_scale", sint_neg, [v_sint(i) for i in range(-8, 25)])
+    sweep("sint_neg_scale_color", sint_neg, [v_sint(i) for i in range(-8, 25, 2)], color=True)
+    sweep("sint_neg_scale_limits", sint_neg, [v_sint(i) for i in range(-8, 25, 3)], limits={"min": v_f64(-2.0), "max": v_f64(2.0)})
     sweep("sint_limits_float", sint, [v_sint(i) for i in range(-8, 25)], limits={"min": v_f64(0.0), "max": v_f64(4.0)})
     fl = [v_f32(x * 0.25) for x in range(-2, 7)]
     sweep("single_unit", rec("intensity", "single", f32(0.0), f32(1.0)), fl)
